@@ -62,6 +62,10 @@ class InterpCore:
         cls = clsname_or_cls if not isinstance(clsname_or_cls, str) else LibClass.get(clsname_or_cls)
         raise Raised(InstV(cls, {"args": (msg,)}), site=self.site(node))
 
+    def throw_key(self, key, node=None):
+        """KeyError as a mapping raises it: args is the missing key itself, not its repr."""
+        raise Raised(InstV(LibClass.get("KeyError"), {"args": (key,)}), site=self.site(node))
+
     # ------------------------------------------------------------------ modules
     def module(self, name: str):
         if name in self.modules:
